@@ -8,6 +8,7 @@ package c15
 
 import (
 	"encoding/json"
+	"sync/atomic"
 	"fmt"
 	"os"
 	"math/rand"
@@ -141,7 +142,7 @@ func TestCheck(t *testing.T) {
 
 	// ---- (1) sequential: all operation sequences up to length L
 	alphabet := []op{
-		{Op: "set", K: "a", TTL: 1}, {Op: "set", K: "a", TTL: 3}, {Op: "set", K: "b", TTL: 2},
+		{Op: "set", K: "a", TTL: 1}, {Op: "set", K: "a", TTL: 3}, {Op: "set", K: "b", TTL: 2}, {Op: "set", K: "b", TTL: 1_000_000_000},
 		{Op: "get", K: "a"}, {Op: "get", K: "b"}, {Op: "delete", K: "a"},
 		{Op: "cleanup"}, {Op: "reset"}, {Op: "advance", D: 1}, {Op: "advance", D: 2},
 	}
@@ -153,6 +154,7 @@ func TestCheck(t *testing.T) {
 		results []int
 	}
 	var cases []seqCase
+	const hugeTTL = int64(1) << 62 // far beyond anything a Duration can hold: must be capped by MaxTTL before any arithmetic
 	runSeq := func(maxTTL int, ops []op) {
 		clk := clocktesting.NewFakeClock(time.Unix(100000, 0))
 		c := ttlcache.NewCacheWithClock[int](ttlcache.CacheOptions{MaxTTL: int64(maxTTL), CleanupInterval: 1000 * time.Hour}, clk)
@@ -166,7 +168,18 @@ func TestCheck(t *testing.T) {
 				o.V = v
 			}
 			ops2[i] = o
-			res[i] = apply(c, clk, o)
+			if o.Op == "set" && o.TTL == 1_000_000_000 {
+				if maxTTL == 0 {
+					o.TTL = 3 // without a cap a huge ttl has no defined meaning (it overflows time.Duration): not generated
+					ops2[i] = o
+					c.Set(o.K, o.V, int64(o.TTL))
+				} else {
+					c.Set(o.K, o.V, hugeTTL) // recorded as ttl=1e9 s: the spec caps it to MaxTTL all the same
+				}
+				res[i] = 0
+			} else {
+				res[i] = apply(c, clk, o)
+			}
 			b.Ev("op", tv.M{"op": o.Op, "k": o.K, "v": o.V, "ttl": o.TTL, "d": o.D, "res": res[i]})
 		}
 		c.Stop()
@@ -245,6 +258,22 @@ func TestCheck(t *testing.T) {
 	}
 	e.Sample(tv.M{"mode": "concurrent", "trace": cb.TraceStrings(cb.Len() / 2)})
 
+	// ---- (2a) duels: two goroutines overwrite one existing key with different values and ttls at the same time; the
+	// probes afterwards must see the value and the expiry of one and the same Set
+	db := &tv.Batch{}
+	for i := 0; i < ev.Pick(1500, 20000); i++ {
+		setDuel(db, rng, e, i)
+	}
+	dmissing, dres := tv.ValidateDoneChunked(tlc.Opts{Dir: "TTLCache", Module: "TraceTTL", Config: "TraceTTL.cfg", Workers: 16, Timeout: ev.Pick(6*time.Minute, 40*time.Minute), HeapMB: 12000}, db)
+	fmt.Printf("TLC set-duel validation: ok=%v traces=%d rejected=%d distinct=%d wall=%s %s\n", dres.OK, db.Len(), len(dmissing), dres.Distinct, dres.Wall.Round(time.Millisecond), dres.What)
+	if !dres.OK {
+		e.Inconclusive("set-duel trace validation did not run: " + dres.What + dres.Tail(1500))
+		return
+	}
+	for _, i := range dmissing {
+		e.Violation("conc:entry-mixes-two-sets", "after two overlapping Sets of one key the entry has the value of one and the expiry of the other (or a value nobody set)", tv.M{"trace": db.TraceStrings(i)})
+	}
+
 	// ---- (2b) the documented refresh race, staged: a key is refreshed in a hot loop while Cleanup/Reset
 	// sits between its scan and its bulk delete, and the loop goes on during the delete
 	rb := &tv.Batch{}
@@ -275,8 +304,8 @@ func TestCheck(t *testing.T) {
 	}
 	e.Sample(tv.M{"mode": "stop", "trace": sb.TraceStrings(0)})
 
-	e.Set("evaluations", int64(nSeq+cb.Len()+sb.Len()+rb.Len()))
-	e.Set("traces_validated_against_impl", int64(nSeq+cb.Len()+sb.Len()+rb.Len()))
+	e.Set("evaluations", int64(nSeq+cb.Len()+sb.Len()+rb.Len()+db.Len()))
+	e.Set("traces_validated_against_impl", int64(nSeq+cb.Len()+sb.Len()+rb.Len()+db.Len()))
 	e.Set("concurrent_histories_with_overlap", int64(overlaps))
 	e.Set("rule", "sequential: every sequence over a 10-letter alphabet (Set a ttl1/ttl3, Set b ttl2, Get a/b, Delete a, Cleanup, Reset, Advance 1s/2s) up to length L that starts with Set and ends with Get, for MaxTTL in {0,2}, plus seeded random sequences of length 6-15; concurrent: 3 goroutines x 4 random ops with the periodic cleaner on, call/return order recorded under one mutex; stop: Stop raced against a cleaner parked inside Cleanup. non-trivial (sequential) = contains a Set and a Get; distinct by (MaxTTL, op sequence)")
 
@@ -435,6 +464,18 @@ func concurrentHistory(b *tv.Batch, rng *rand.Rand, e *ev.Evidence) bool {
 	}
 	close(start)
 	wg.Wait()
+	// after the concurrent phase: sequential probes at successive instants - the surviving entry of every key must be one
+	// that some Set wrote as a whole (value AND expiry of the same Set)
+	for step := 0; step < 4; step++ {
+		for _, k := range []string{"a", "b"} {
+			o := op{Op: "get", K: k}
+			id := h.call(o)
+			h.ret(id, apply(c, clk, o))
+		}
+		o := op{Op: "advance", D: 1}
+		id := h.call(o)
+		h.ret(id, apply(c, clk, o))
+	}
 	// overlap: some call event directly follows another call without a ret in between
 	lines := b.TraceStrings(b.Len() - 1)
 	open := 0
@@ -456,6 +497,90 @@ func concurrentHistory(b *tv.Batch, rng *rand.Rand, e *ev.Evidence) bool {
 		e.Nontrivial(fmt.Sprint(lines))
 	}
 	return over
+}
+
+// setDuel: Set(k,1,ttl 3) first; then two goroutines overwrite k concurrently (value 2 with ttl 1 vs value 3 with ttl 4) in
+// hot loops, barrier-released; then Get at +0,+2,+3 s.  Whatever order the Sets took, the entry is (2, exp 1) or (3, exp 4),
+// as a whole.  Values are 384-byte arrays filled with one number, so that a value assembled from two Sets is visible (-2).
+type bigVal [48]int64
+
+func fill(v int) (b bigVal) {
+	for i := range b {
+		b[i] = int64(v)
+	}
+	return
+}
+
+func unfill(b bigVal, ok bool) int {
+	if !ok {
+		return miss
+	}
+	for _, x := range b {
+		if x != b[0] {
+			return -2 // torn: not a value anybody set
+		}
+	}
+	return int(b[0])
+}
+
+func setDuel(b *tv.Batch, rng *rand.Rand, e *ev.Evidence, round int) {
+	clk := clocktesting.NewFakeClock(time.Unix(100000, 0))
+	c := ttlcache.NewCacheWithClock[bigVal](ttlcache.CacheOptions{CleanupInterval: 1000 * time.Hour}, clk)
+	defer c.Stop()
+	b.Start(tv.M{"maxTTL": 0, "cleaner": false, "scenario": "set duel"})
+	h := &hist{b: b}
+	get := func() {
+		id := h.call(op{Op: "get", K: "k"})
+		h.ret(id, unfill(c.Get("k")))
+	}
+	adv := func(d int) {
+		id := h.call(op{Op: "advance", D: d})
+		clk.Step(time.Duration(d) * time.Second)
+		h.ret(id, 0)
+	}
+	id := h.call(op{Op: "set", K: "k", V: 1, TTL: 3})
+	c.Set("k", fill(1), 3)
+	h.ret(id, 0)
+	var wg sync.WaitGroup
+	var ready, goFlag, stopFlag atomic.Int32
+	for g, o := range []op{{Op: "set", K: "k", V: 2, TTL: 1}, {Op: "set", K: "k", V: 3, TTL: 4}} {
+		wg.Add(1)
+		go func(g int, o op) {
+			defer wg.Done()
+			ready.Add(1)
+			for goFlag.Load() == 0 {
+			}
+			for i := 0; i < (round>>uint(g))%3; i++ {
+				runtime.Gosched()
+			}
+			// one recorded Set standing for a hot loop of identical Sets: nobody reads during the loop, so for every
+			// observation it is equivalent to a single Set taking effect somewhere inside the call
+			id := h.call(o)
+			v := fill(o.V)
+			for { // both loops are stopped together, so that their last Sets are likely to overlap
+				c.Set(o.K, v, int64(o.TTL))
+				if stopFlag.Load() != 0 {
+					break
+				}
+			}
+			h.ret(id, 0)
+		}(g, o)
+	}
+	for ready.Load() < 2 {
+		runtime.Gosched()
+	}
+	goFlag.Store(1)
+	for i := 0; i < 20+round%50; i++ {
+		runtime.Gosched()
+	}
+	stopFlag.Store(1)
+	wg.Wait()
+	get()
+	adv(2)
+	get()
+	adv(1)
+	get()
+	e.Nontrivial(fmt.Sprint("duel", round%9))
 }
 
 // refreshRace stages the window between the scan and the bulk delete of Cleanup (or Reset).
